@@ -87,7 +87,20 @@ func (i c13interpT) TransformNode(u interface{}, n parsley.Node) (parsley.Node, 
 		// so nothing below it is transformed by the library
 		return n, nil
 	}
+	if nt, ok := n.(*ast.NonTerminalNode); ok && i.m.id%4 == 1 && len(nt.Children()) > 0 {
+		// a replacement that is itself transformable (a fresh non-terminal with a transformer of its own, around the old
+		// children with theirs): what a node's transformer returns is final, the library must not transform it again
+		return ast.NewNonTerminalNode("REPLACEMENT", nt.Children(), c13interpR{i.c13interp}), nil
+	}
 	return ast.NewTerminalNode(fmt.Sprintf("ST%d", i.m.id), fmt.Sprintf("T%d", i.m.id), nil, n.Pos(), n.ReaderPos()), nil
+}
+
+// c13interpR: the interpreter of a replacement node; its transformer must never be called
+type c13interpR struct{ c13interp }
+
+func (i c13interpR) TransformNode(u interface{}, n parsley.Node) (parsley.Node, parsley.Error) {
+	i.w.log = append(i.w.log, fmt.Sprintf("transform-of-the-replacement-for %d u=%v", i.m.id, u))
+	return n, nil
 }
 
 type c13interpCT struct{ c13interpC }
@@ -414,6 +427,13 @@ func c13exec(j run.Job, a *run.Acc) {
 				}
 				if m.id%4 == 0 { // identity transformer: the node stays, with its children untouched
 					return c13shapeMirror(m)
+				}
+				if m.id%4 == 1 && len(m.kids) > 0 { // fresh non-terminal around the untouched children
+					var ks []string
+					for _, k := range m.kids {
+						ks = append(ks, c13shapeMirror(k))
+					}
+					return fmt.Sprintf("N0(%s)", strings.Join(ks, " "))
 				}
 				return fmt.Sprintf("T%d", m.id)
 			}
